@@ -449,6 +449,20 @@ impl HotTier {
         k: usize,
         cancelled: Option<&AtomicBool>,
     ) -> Vec<(u64, f32)> {
+        self.knn_search_with_coherence(query, k, cancelled)
+            .into_iter()
+            .map(|(doc_id, distance, _)| (doc_id, distance))
+            .collect()
+    }
+
+    /// k-NN search that also reports, for every hit, the coherence token of the mirror entry the
+    /// distance was computed from (read under the same lock as the distance computation).
+    pub fn knn_search_with_coherence(
+        &self,
+        query: &[f32],
+        k: usize,
+        cancelled: Option<&AtomicBool>,
+    ) -> Vec<(u64, f32, VectorCoherenceToken)> {
         if k == 0 {
             return Vec::new();
         }
@@ -528,7 +542,9 @@ impl HotTier {
 
         let mut top = Vec::with_capacity(top_heap.len());
         while let Some(item) = top_heap.pop() {
-            top.push((item.doc_id, item.distance));
+            if let Some(doc) = docs.get(&item.doc_id) {
+                top.push((item.doc_id, item.distance, doc.coherence));
+            }
         }
         top.sort_by(|a, b| a.1.total_cmp(&b.1).then_with(|| a.0.cmp(&b.0)));
         top
